@@ -227,10 +227,15 @@ func (f *File) Read(n int) (rt.Value, error) {
 			return rt.NilValue, err
 		}
 	}
-	b := make([]byte, n)
-	n, err := io.ReadFull(f.reader, b)
-	if err == nil || err == io.ErrUnexpectedEOF {
-		return rt.StringValue(string(b[:n])), nil
+	// The buffer grows with the data actually read: n comes from the Lua
+	// program and may be much larger than the file (make([]byte, n) panics
+	// with "makeslice: len out of range" for file:read(math.maxinteger)).
+	b, err := ioutil.ReadAll(io.LimitReader(f.reader, int64(n)))
+	if err == nil && len(b) == 0 {
+		err = io.EOF
+	}
+	if err == nil {
+		return rt.StringValue(string(b)), nil
 	}
 	return rt.NilValue, err
 }
